@@ -85,6 +85,25 @@ fn convert_start(s: BytesStart<'static>, k: usize) -> BytesStart<'static> {
     }
 }
 
+fn apply_op<'a>(s: &mut BytesStart<'a>, op: &StartOp) {
+    match op {
+        StartOp::Push(k, v) => s.push_attribute((k.as_str(), v.as_str())),
+        StartOp::Extend(l) => {
+            s.extend_attributes(l.iter().map(|(k, v)| (k.as_str(), v.as_str())));
+        }
+        StartOp::With(l) => {
+            let t = std::mem::replace(s, BytesStart::new(""));
+            *s = t.with_attributes(l.iter().map(|(k, v)| (k.as_str(), v.as_str())));
+        }
+        StartOp::SetName(n) => {
+            s.set_name(n.as_bytes());
+        }
+        StartOp::Clear => {
+            s.clear_attributes();
+        }
+    }
+}
+
 pub fn build_start(name: &str, ops: &[StartOp]) -> BytesStart<'static> {
     // the seed of the conversions: a pure function of the spec
     let mut k = name.len() + 7 * ops.len();
@@ -97,18 +116,15 @@ pub fn build_start(name: &str, ops: &[StartOp]) -> BytesStart<'static> {
         // a conversion between any two builder calls (edits continue on the copy)
         k = k.wrapping_mul(31).wrapping_add(11);
         s = convert_start(s, k >> 2);
-        match op {
-            StartOp::Push(k, v) => s.push_attribute((k.as_str(), v.as_str())),
-            StartOp::Extend(l) => {
-                s.extend_attributes(l.iter().map(|(k, v)| (k.as_str(), v.as_str())));
-            }
-            StartOp::With(l) => s = s.with_attributes(l.iter().map(|(k, v)| (k.as_str(), v.as_str()))),
-            StartOp::SetName(n) => {
-                s.set_name(n.as_bytes());
-            }
-            StartOp::Clear => {
-                s.clear_attributes();
-            }
+        if (k >> 7) % 3 == 0 {
+            // the builder call is made on a BORROWING copy of what was built so far (the state in
+            // which a start event comes from the reader or from from_content(&str, n))
+            let so_far = s.clone();
+            let mut b = so_far.borrow();
+            apply_op(&mut b, op);
+            s = b.into_owned();
+        } else {
+            apply_op(&mut s, op);
         }
     }
     k = k.wrapping_mul(31).wrapping_add(11);
